@@ -27,3 +27,7 @@ chk('C12','fault_enumeration',
  'Per history: transparency under the always-OK function (results and base snapshot equal to a twin base; every direct primitive consults the callback with its own id), EVERY single-fault plan "fail the k-th consultation" (error returned - the injected value itself for a direct primitive - and base snapshot taken inside the callback at the injection moment equal to the one at return), "always fail primitive F" plans that also drive files and sub file systems handed out by the FailFS, and the ReadOnlyFunc plan under a base snapshot monitor incl. mtimes.',
  'single-fault and always-fail plans only (no multi-fault sequences); Glob is required not to report injected I/O errors (its contract)',
  'FailFS fault enumeration; the failure callback itself is the monitor','DESIGN.md §5 C12')
+chk('C02','exploration',
+ 'Differential lockstep of handle operations against *os.File on tmpfs (chroot): random scenarios with up to 3 handles opened with any of the 36 flag sets on one file (optionally two hard links), 60 steps mixing all File methods with path-level Truncate/Rename/Link/Remove/Chmod/WriteFile; after every step the offset and Stat of every open handle and the content/attributes of every link are compared; bounded-exhaustive short sequences for every flag set; directory handles judged against the statement (each entry once, batches <= n, then EOF), including mixed ReadDir/Readdirnames.',
+ 'tmpfs/os.File as the reference; Seek whence 3/4 never generated; error strings, Fd, mtimes not compared',
+ 'differential lockstep against os.File with per-step observation sweep','DESIGN.md §5 C02')
